@@ -356,6 +356,11 @@ func TestC14Fanout(t *testing.T) {
 			ReverseDns: true, PublicIP: rapid.Bool().Draw(rt, "pubip")}
 		rq.Scripts = []FlowScript{{DestDist: oneOf(rt, "dest", 0, 3, 5), Default: HopSpec{DelayUs: 2000}}, {DestDist: 4, Default: HopSpec{DelayUs: 9000}}}
 		rq.DNSDefault = DNSScript{Names: []string{"x.example."}, DelayMs: oneOf(rt, "dns_delay", 0, 3)}
+		// the caller goes on reading the document it was handed while a slow public-IP answer is still on its way
+		rq.ReadAfter = true
+		if rq.P.PublicIP {
+			rq.Fetcher = oneOf(rt, "fetcher", "", "slow", "slow", "error")
+		}
 		// a third of the requests fail everywhere at once: every run and every e2e probe reports its error at
 		// about the same instant (the error collection is shared state too)
 		if oneOf(rt, "all_fail", false, false, true) {
